@@ -81,6 +81,32 @@ def _wide(case, bad):
         except Exception as e:
             bad("fit raises %s" % type(e).__name__, cond0, "%s categories=%r" % (e, cats))
             continue
+        # an unseen value that EXTENDS a training category and is longer than every training category (fixed-width string dtypes
+        # would cut it back to a known one): an error without skip_errors, no indicator / no code with it
+        longest = max(seenA, key=len)
+        ext = longest + "zz"
+        t2 = pandas.DataFrame({"A": pandas.Series([ext, seenA[0]], dtype=object), "num": [1.0, 2.0], "flag": [True, False],
+                               "B": pandas.Series([seenB[0], seenB[-1]], dtype=object)})
+        cnt += 1
+        try:
+            o2 = tr.transform(t2)
+            e2 = None
+        except Exception as e_:
+            o2, e2 = None, e_
+        xcond = "%s,unseen category" % cond0
+        if not skip and e2 is None:
+            bad("unseen category does not raise", xcond, "value %r extends the training category %r; categories=%r single=%s" % (ext, longest, seenA, single))
+        if skip:
+            if e2 is not None:
+                bad("transform raises %s" % type(e2).__name__, xcond, "%s value %r skip_errors=True" % (str(e2)[:150], ext))
+            elif single:
+                g_ = o2["A"].iloc[0]
+                if not (g_ is None or (isinstance(g_, float) and g_ != g_)):
+                    bad("single=True: missing/unseen value encoded", xcond, "%r -> %r" % (ext, g_))
+            else:
+                lit = [c_ for c_ in o2.columns if str(c_).startswith("A=") and o2[c_].iloc[0] == 1.0]
+                if lit:
+                    bad("indicator set for another value", xcond, "unseen %r lights %r" % (ext, lit))
         for iname, idx in (("default", None), ("strings", ["r%d" % i for i in range(m)]), ("duplicates", [3] * m),
                            ("descending", list(range(m, 0, -1)))):
             for dname in ("object", "category", "str"):
